@@ -669,6 +669,43 @@ def _run(chk, wd, proved, only=None):
     finally:
         with contextlib.redirect_stdout(sink), contextlib.redirect_stderr(sink):
             tb.close()
+    # --- each server section accepts exactly ITS OWN credentials: two sections with
+    #     different credentials (distinct users; same user, different passwords; {SHA})
+    sha = lambda pw: '{SHA}' + hashlib.sha1(pw.encode('utf-8')).hexdigest()
+    scenarios = [
+        ('distinct-users', ('localop', 'local-secret', 'local-secret'), ('remote', sha('remote-secret'), 'remote-secret')),
+        ('same-user', ('admin', 'unix-only-pw', 'unix-only-pw'), ('admin', 'inet-only-pw', 'inet-only-pw')),
+    ]
+    for si, (sname, ucfg, icfg) in enumerate(scenarios):
+        sub = os.path.join(wd, 'cfg-cross%d' % si)
+        os.makedirs(sub)
+        with contextlib.redirect_stdout(sink), contextlib.redirect_stderr(sink):
+            tb = S.Testbed(sub, ucfg[0], ucfg[1], tag='x%d' % si, inet_creds=(icfg[0], icfg[1]))
+        try:
+            logins = {'unix': (ucfg[0], ucfg[2]), 'inet': (icfg[0], icfg[2])}
+            for which in (0, 1):
+                fam = 'unix' if tb.addrs[which][0] == 1 else 'inet'
+                cfg = tb.configs[which]
+                other = 'inet' if fam == 'unix' else 'unix'
+                for path, method, body in (('/RPC2', 'POST', rpc_body('rec.kill', 'g:p')), ('/mainlogtail', 'GET', b''),
+                                           ('/stylesheets/supervisor.css', 'GET', b''),
+                                           ('/index.html?action=stop&processname=g:p', 'GET', b'')):
+                    for who in (fam, other):
+                        u, pw = logins[who]
+                        raw = build_request(method, path, ' HTTP/1.1', ['Authorization: Basic ' + b64(u + ':' + pw)], body)
+                        o = observe(tb, which, raw, sink)
+                        n_exchanges += 1
+                        chk.dist('kind:cross-section:' + ('own' if who == fam else 'foreign'))
+                        tags = ('cross-section', path, sname + ':' + ('own' if who == fam else 'foreign'), method, 'HTTP/1.1')
+                        _judge(chk, cfg['username'], cfg['password'], tags, raw, o, fam,
+                               extra={'unix_http_server': list(ucfg[:2]), 'inet_http_server': list(icfg[:2])})
+                        if who == fam and not o['inner']:
+                            chk.violation({'kind': 'PROPERTY VIOLATED: a server section refuses its own configured credentials',
+                                           'scenario': sname, 'server': fam, 'section_credentials': [cfg['username'], cfg['password']],
+                                           'other_section': list(logins[other]), 'raw': list(raw), 'status': o['status']})
+        finally:
+            with contextlib.redirect_stdout(sink), contextlib.redirect_stderr(sink):
+                tb.close()
     # --- extra single-line regex cases (random spellings)
     rng = chk.rng
     alphabet = [u'A', u'a', u'u', u'U', u't', u'h', u'o', u'r', u'i', u'I', u'\u0130', u'\u0131', u'z', u'Z', u'n',
@@ -721,12 +758,12 @@ def _run(chk, wd, proved, only=None):
     cov['samples'] = samples or [g.meta[0] for g in ex_groups.groups if g.meta][:2]
 
 
-def _judge(chk, user, stored, tags, raw, o, fam):
+def _judge(chk, user, stored, tags, raw, o, fam, extra=None):
     """The property itself, judged on the real exchange without the model."""
     creds = lenient_credentials(raw)
     ok = any(acceptable(user, stored, u, p) for (u, p) in creds)
     if o['inner'] and not ok:
-        chk.violation({'kind': 'PROPERTY VIOLATED: an inner handler ran for a request without valid credentials',
+        chk.violation({'sections': extra, 'kind': 'PROPERTY VIOLATED: an inner handler ran for a request without valid credentials',
                        'config': [user, stored], 'server': fam, 'raw': list(raw), 'tags': list(tags),
                        'inner_calls': repr(o['inner']), 'status': o['status'], 'side_effects': {
                            'supervisord_access': o['access'], 'process_calls': repr(o['proc']), 'rpc_calls': repr(o['rpc'])}})
@@ -734,7 +771,7 @@ def _judge(chk, user, stored, tags, raw, o, fam):
     for call in o['inner']:
         ai = call[1]
         if not (isinstance(ai, list) and len(ai) == 2 and acceptable(user, stored, ai[0], ai[1])):
-            chk.violation({'kind': 'PROPERTY VIOLATED: inner handler invoked with auth_info that is not the configured '
+            chk.violation({'sections': extra, 'kind': 'PROPERTY VIOLATED: inner handler invoked with auth_info that is not the configured '
                            'credential', 'config': [user, stored], 'raw': list(raw), 'auth_info': repr(ai), 'server': fam})
     if not o['inner']:
         import c17_server as S
@@ -748,7 +785,7 @@ def _judge(chk, user, stored, tags, raw, o, fam):
         if o['status'] == 401 and not o['headers'].get('www-authenticate', '').startswith('Basic realm='):
             leaks.append('401 without a Basic challenge')
         if leaks:
-            chk.violation({'kind': 'PROPERTY VIOLATED: refused request had an effect', 'what': leaks,
+            chk.violation({'sections': extra, 'kind': 'PROPERTY VIOLATED: refused request had an effect', 'what': leaks,
                            'config': [user, stored], 'server': fam, 'raw': list(raw), 'status': o['status']})
 
 
